@@ -611,6 +611,186 @@ impl PairMonitor {
     }
 }
 
+/// every observable of one ordered pair that this property judges, as a comparable string
+fn pair_fingerprint(prop: &str, ont: &Ontology, a: u32, b: u32) -> String {
+    let (ta, tb) = (ont.hpo(a).expect("term"), ont.hpo(b).expect("term"));
+    match prop {
+        "C11" => format!(
+            "{:?}|{:?}|{:?}|{:?}",
+            ta.distance_to_ancestor(&tb),
+            ta.path_to_ancestor(&tb).map(|v| v.iter().map(|x| x.as_u32()).collect::<Vec<_>>()),
+            ta.distance_to_term(&tb),
+            ta.path_to_term(&tb).map(|v| v.iter().map(|x| x.as_u32()).collect::<Vec<_>>())
+        ),
+        "C12" => format!(
+            "{:?}|{:?}|{:?}|{:?}",
+            ids_of(&ta.common_ancestor_ids(&tb)),
+            ids_of(&ta.all_common_ancestor_ids(&tb)),
+            ids_of(&ta.union_ancestor_ids(&tb)),
+            ids_of(&ta.all_union_ancestor_ids(&tb))
+        ),
+        _ => {
+            let mut v: Vec<u32> = Vec::new();
+            for k in KINDS {
+                for bi in [
+                    Builtins::GraphIc(k),
+                    Builtins::Resnik(k),
+                    Builtins::Lin(k),
+                    Builtins::Jc(k),
+                    Builtins::Relevance(k),
+                    Builtins::InformationCoefficient(k),
+                    Builtins::Distance(k),
+                    Builtins::Mutation(k),
+                ] {
+                    v.push(bi.calculate(&ta, &tb).to_bits());
+                }
+            }
+            format!("{v:?}")
+        }
+    }
+}
+
+impl PairMonitor {
+    /// Results must be a function of (ontology, pair) only: two ontologies with the SAME term ids but
+    /// different links and annotations are queried (1) one after the other in the same memory slot and
+    /// (2) alternating pair by pair; every answer must equal the one given in a clean full sweep, and
+    /// each sweep is judged by the property's ordinary oracle. Catches state leaking between calls
+    /// (memoisation keyed without the ontology, scratch buffers, caches tagged by address).
+    fn alternating_case(&self, rng: &mut Rng, tier: Tier, out: &mut CaseOut) {
+        let cap = tier.pick(300, 2000);
+        let cfg = crate::gen::GenCfg {
+            n_min: 4,
+            n_max: 16,
+            defaults: false,
+            flags: false,
+            max_paths: Some(cap),
+            ..crate::gen::GenCfg::default()
+        };
+        let fa = crate::gen::gen_facts(rng, &cfg).builder_view();
+        // B: same terms, other links (a different random DAG over the same ids) and reshuffled annotations
+        let mut fb = fa.clone();
+        let ids: Vec<u32> = fa.terms.iter().map(|t| t.id).collect();
+        fb.edges.clear();
+        for i in 1..ids.len() {
+            for _ in 0..rng.urange(0, 2) {
+                let p = rng.usize_below(i);
+                if !fb.edges.contains(&(ids[i], ids[p])) {
+                    fb.edges.push((ids[i], ids[p]));
+                }
+            }
+        }
+        for k in 0..3 {
+            for r in &mut fb.recs[k] {
+                r.terms = (0..rng.urange(0, 3)).map(|_| *rng.pick(&ids)).collect();
+            }
+        }
+        if crate::model::Model::new(&fb, false).max_path_count(cap * 4) > cap {
+            fb.edges.truncate(ids.len());
+        }
+        out.sig = crate::rng::hash_u64s(&[fa.content_hash(), fb.content_hash(), 0xa17]);
+        out.nontrivial = ids.len() >= 4;
+        out.bucket("alternating_ontologies");
+        out.case = Json::obj().set("kind", Json::s("two ontologies over the same term ids, queried alternately")).set("A", fa.to_json()).set("B", fb.to_json());
+        let build = |f: &crate::facts::FactSet| crate::drive::via_builder(f, None, false);
+        let mk_pc = |f: &crate::facts::FactSet, ont: Ontology, out: &mut CaseOut| {
+            let model = Model::new(f, false);
+            let obs = crate::observe::walk(&ont, &ids, &mut out.events);
+            PairCase {
+                sc: StateCase { view: f.clone(), facts: f.clone(), path: PathKind::BuilderMinimal, order: crate::drive::OrderMode::AsGiven, shape: "alt".into(), id_mode: "alt".into() },
+                ont,
+                obs,
+                model,
+                subset: None,
+            }
+        };
+        // (1) A, then B in the SAME slot (same address), then A again: each judged by the ordinary oracle
+        let mut slot: Option<PairCase> = None;
+        let mut sweeps: Vec<BTreeMap<(u32, u32), String>> = Vec::new();
+        for (round, f) in [&fa, &fb, &fa].into_iter().enumerate() {
+            slot = None; // drop the previous ontology first so that its memory is reused
+            let ont = match build(f) {
+                Ok(o) => o,
+                Err(e) => {
+                    out.violate(self.prop, "construct_failed/builder_minimal", format!("{e}"));
+                    return;
+                }
+            };
+            slot = Some(mk_pc(f, ont, out));
+            let pc = slot.as_ref().unwrap();
+            match self.prop {
+                "C11" => self.c11(pc, out),
+                "C12" => self.c12b(pc, out),
+                _ => self.c04(pc, out),
+            }
+            if round < 2 {
+                let mut m = BTreeMap::new();
+                for a in &ids {
+                    for b in &ids {
+                        m.insert((*a, *b), pair_fingerprint(self.prop, &pc.ont, *a, *b));
+                    }
+                }
+                sweeps.push(m);
+            }
+        }
+        drop(slot);
+        // (2) both alive, alternating pair by pair
+        let (oa, ob) = match (build(&fa), build(&fb)) {
+            (Ok(a), Ok(b)) => (a, b),
+            _ => return,
+        };
+        if self.prop == "C04" {
+            // finest granularity: the same (pair, kind, algorithm) on A and then on B
+            let score = |ont: &Ontology, a: u32, b: u32, i: usize| -> u32 {
+                let (ta, tb) = (ont.hpo(a).expect("term"), ont.hpo(b).expect("term"));
+                let k = KINDS[i / 8];
+                let bi = match i % 8 {
+                    0 => Builtins::GraphIc(k),
+                    1 => Builtins::Resnik(k),
+                    2 => Builtins::Lin(k),
+                    3 => Builtins::Jc(k),
+                    4 => Builtins::Relevance(k),
+                    5 => Builtins::InformationCoefficient(k),
+                    6 => Builtins::Distance(k),
+                    _ => Builtins::Mutation(k),
+                };
+                bi.calculate(&ta, &tb).to_bits()
+            };
+            let parse = |s: &str| -> Vec<u32> { s.trim_matches(|c| c == '[' || c == ']').split(", ").filter_map(|x| x.parse().ok()).collect() };
+            for a in &ids {
+                for b in &ids {
+                    let ea = parse(&sweeps[0][&(*a, *b)]);
+                    let eb = parse(&sweeps[1][&(*a, *b)]);
+                    for i in 0..24 {
+                        for (which, ont, exp) in [(0usize, &oa, &ea), (1usize, &ob, &eb)] {
+                            bump(&mut out.events, "alternating_query");
+                            match guard(|| score(ont, *a, *b, i)) {
+                                Ok(v) => out.check(v == exp[i], "C04", "answer_depends_on_earlier_calls", || {
+                                    format!("score #{i} (kind {}, algorithm {}) of pair ({a},{b}) on ontology {} = {} when queried right after the other ontology, {} in a clean sweep", i / 8, i % 8, ["A", "B"][which], f32::from_bits(v), f32::from_bits(exp[i]))
+                                }),
+                                Err(p) => out.violate("C04", "panic:alternating_query", format!("({a},{b}): {}", p.message)),
+                            }
+                        }
+                    }
+                }
+            }
+        }
+        for a in &ids {
+            for b in &ids {
+                for (which, ont) in [(0usize, &oa), (1usize, &ob)] {
+                    bump(&mut out.events, "alternating_query");
+                    let r = guard(|| pair_fingerprint(self.prop, ont, *a, *b));
+                    match r {
+                        Ok(fp) => out.check(fp == sweeps[which][&(*a, *b)], self.prop, "answer_depends_on_earlier_calls", || {
+                            format!("pair ({a},{b}) on ontology {}: {fp} when queried alternately, {} in a clean sweep", ["A", "B"][which], sweeps[which][&(*a, *b)])
+                        }),
+                        Err(p) => out.violate(self.prop, "panic:alternating_query", format!("({a},{b}): {} at {}", p.message, p.location)),
+                    }
+                }
+            }
+        }
+    }
+}
+
 impl Monitor for PairMonitor {
     fn id(&self) -> &'static str {
         self.prop
@@ -649,6 +829,9 @@ impl Monitor for PairMonitor {
             v.extend(super::group::plan(tier));
         }
         v.push("real:0".to_string());
+        for i in 0..tier.pick(60, 3000) {
+            v.push(format!("alt:{i}"));
+        }
         v.extend(catalogue_labels());
         if self.prop == "C11" {
             for i in 0..12 {
@@ -689,7 +872,9 @@ impl Monitor for PairMonitor {
                 "pair_with_one_zero_ic",
             ],
         };
-        v.into_iter().filter(|s| !s.contains('|')).map(str::to_string).collect()
+        let mut v: Vec<String> = v.into_iter().filter(|s| !s.contains('|')).map(str::to_string).collect();
+        v.push("alternating_ontologies".to_string());
+        v
     }
 
     fn finish(&self, buckets: &BTreeMap<String, u64>) -> Vec<Violation> {
@@ -726,6 +911,10 @@ impl Monitor for PairMonitor {
         let mut rng = Rng::for_case(seed, self.prop, label);
         if self.prop == "C12" && label.starts_with("grp") {
             super::group::run_case(label, &mut rng, tier, &mut out);
+            return out;
+        }
+        if label.starts_with("alt:") {
+            self.alternating_case(&mut rng, tier, &mut out);
             return out;
         }
         let pc = if label.starts_with("shortcut") {
@@ -788,7 +977,7 @@ impl Monitor for PairMonitor {
             loop {
                 let mut r = Rng::for_case(seed, self.prop, &lbl);
                 let cap = tier.pick(300, 2000);
-                let sc = state_case_from_label(label, &mut r, Tier::Quick, false, Some(cap));
+                let sc = state_case_from_label(label, &mut r, Tier::Quick, true, Some(cap));
                 if sc.view.terms.len() <= 90 || tries > 20 {
                     let built = construct(&sc.view, sc.path, &mut r, self.prop);
                     let ont = match built {
